@@ -76,6 +76,9 @@ def _cases(shard):
                 op('maxKey', st.one_of(st.none(), K), boom), op('cursor', st.sampled_from(['iter', 'keys'] + (['items', 'values'] if is_map else [])), st.integers(0, 6)),
                 op('algebra', st.sampled_from(['union', 'intersection', 'difference', 'or', 'and', 'sub']), st.lists(K, max_size=8),
                    st.sampled_from(['Set', 'TreeSet', 'list'] + (['Bucket', 'BTree'] if is_map else [])), boom),
+                # a plain list with repeated elements as operand, no injected failure: the sort-and-squeeze path runs
+                op('algebra', st.sampled_from(['union', 'intersection', 'difference', 'or', 'and', 'sub']),
+                   st.lists(K, min_size=2, max_size=6).map(lambda l: l + l[:2] + [max(l) + 1]), st.just('list'), st.just(0)),
                 op('merge', st.lists(K, max_size=4), st.lists(K, max_size=4), st.lists(K, max_size=4), boom),
                 op('merge_ok', st.lists(K, min_size=1, max_size=5), K, K, st.booleans(), st.integers(1, 3)),
                 op('pickle'), op('badkey'), op('clear'), op('copy'), op('delrun', K, st.integers(2, 6)), op('edgesweep'),
@@ -527,6 +530,7 @@ def _step(w, t, klass, op, alive, stats, classes):
             if oth is not None:
                 alive.append(oth)
         alive.append((r, hasattr(r, 'items'), False))
+        classes.append('algebra:%s:%s' % (form, 'dups' if len(set(keys)) != len(keys) else 'nodups'))
         del ks
     elif name == 'merge':
         # three-way merge of leaf states sharing the probe objects
